@@ -23,6 +23,11 @@ structure PassI (C σ : Type) where
   advance : C → σ → Option σ
   aos : C → σ → Option σ          -- advance_on_success, given the accepted candidate
   transform : C → σ → PR × C × σ
+  /-- `new` may rewrite the test case in place before enumerating (LinesPass reformats through topformflat): the
+      alternatives it tries, in order; each is kept only if the sanity check passes on it.  `[]`: `new` leaves the file alone -/
+  fmt : C → List C := fun _ => []
+  /-- if no alternative passes the sanity check the file is restored; `bail`: the pass then gives up (`new` returns None) -/
+  bail : Bool := false
 
 structure Cfg where
   cacheOn : Bool := true
@@ -263,12 +268,27 @@ def fileLoop {C σ} [DecidableEq C] [Inhabited σ] [Inhabited C] (cfg : Cfg) (W 
 
 def totalSize {C} (size : C → Nat) (disk : List C) : Nat := (disk.map size).foldl (· + ·) 0
 
+/-- the in-place rewriting a pass's `new` may do (`LinesPass.__format` with the `check_sanity` callback): the first
+    alternative on which the interestingness test — run directly, on a copy of all test cases — exits 0 is kept;
+    if there is none the file is as before and the pass may give up.  Returns the state and the content enumeration
+    starts from (`none`: the pass gave up) -/
+def fmtStep {C σ} [DecidableEq C] (W : World C) (P : PassI C σ) (x : St C) (k : Nat) (before : C) : St C × Option C :=
+  match P.fmt before with
+  | [] => (x, some before)
+  | c :: cs =>
+    match (c :: cs).find? (fun c' => W.test (x.disk.set k c') = .code 0) with
+    | some c' => ({ x with disk := x.disk.set k c' }, some c')
+    | none => (x, if P.bail then none else some before)
+
 /-- `new` + all rounds on one file -/
 def newLoop {C σ} [DecidableEq C] [Inhabited σ] [Inhabited C] (cfg : Cfg) (W : World C) (dn : Sched) (P : PassI C σ) (k : Nat) (fuel rid : Nat)
     (x : St C) (before : C) : LRes C :=
-  match P.new before with
-  | none => .inl (x, rid)
-  | some s => fileLoop cfg W dn P k (W.size before) fuel rid s 0 x
+  match (fmtStep W P x k before).2 with
+  | none => .inl ((fmtStep W P x k before).1, rid)
+  | some c =>
+    match P.new c with
+    | none => .inl ((fmtStep W P x k before).1, rid)
+    | some s => fileLoop cfg W dn P k (W.size before) fuel rid s 0 (fmtStep W P x k before).1
 
 /-- one file of `run_pass`: skip if empty, replay from the cache, else reduce and store -/
 def fileStep {C σ} [DecidableEq C] [Inhabited σ] [Inhabited C] (cfg : Cfg) (W : World C) (dn : Sched) (P : PassI C σ) (fuel : Nat)
